@@ -7,6 +7,7 @@ package main
 
 import (
 	"fmt"
+	"github.com/Fantom-foundation/lachesis-base/hash"
 	"sort"
 
 	"github.com/Fantom-foundation/lachesis-base/emitter/ancestor"
@@ -90,8 +91,14 @@ func checkDAG(c *core.Ctx, d *lref.DAG, desc string) {
 						continue // all three diff functions on short histories, the first on all
 					}
 					qi := ancestor.NewQuorumIndexer(vals, &adapters.VectorToDagIndexer{Index: node.Index}, diff)
+					var allIDs hash.Events
+					for _, e := range evs {
+						allIDs = append(allIDs, e.ID())
+					}
 					for _, st := range nxt.path {
 						qi.ProcessEvent(evs[st[0]], st[1] == 1)
+						// the emitter asks the search strategy after every event: this fills its metric cache
+						qi.SearchStrategy().Choose(nil, allIDs)
 					}
 					replay := func() interface{} {
 						return map[string]interface{}{"dag": d.String(), "family": desc, "process_event_calls(event,self)": nxt.path, "diff_function": di}
@@ -122,6 +129,35 @@ func checkDAG(c *core.Ctx, d *lref.DAG, desc string) {
 						wantMed[pos] = best
 						if uint64(med[pos]) != best {
 							c.Violation("median", replay(), "median for validator #%d (id %d) is %d, definition gives %d (observations %v, quorum %d) [%v]", v, d.IDs[v], med[pos], best, seqs, q, replay())
+							return
+						}
+					}
+					wantMetric := make([]ancestor.Metric, len(evs))
+					for ce := range evs {
+						for pos, v := range order {
+							wantMetric[ce] += diff(idx.Event(wantMed[pos]), idx.Event(obs(d, nxt.self, v)), idx.Event(obs(d, ce, v)), idx.Validator(pos))
+						}
+					}
+					// the (cached) search strategy must pick an option of maximal metric, whatever was asked before
+					for mask := 1; mask < 1<<uint(len(evs)); mask++ {
+						var opts hash.Events
+						var idxs []int
+						for ce := range evs {
+							if mask&(1<<uint(ce)) != 0 {
+								opts = append(opts, evs[ce].ID())
+								idxs = append(idxs, ce)
+							}
+						}
+						pick := qi.SearchStrategy().Choose(nil, opts)
+						best := wantMetric[idxs[0]]
+						for _, ce := range idxs {
+							if wantMetric[ce] > best {
+								best = wantMetric[ce]
+							}
+						}
+						c.Count("strategy_choices_checked", 1)
+						if pick < 0 || pick >= len(opts) || wantMetric[idxs[pick]] != best {
+							c.Violation("strategy-not-maximal", replay(), "SearchStrategy().Choose over options %v picked e%d with metric %d, the maximal metric among the options is %d [%v]", idxs, idxs[pick], wantMetric[idxs[pick]], best, replay())
 							return
 						}
 					}
